@@ -619,6 +619,17 @@ def record_adapter(rec, r, tier):
             out = call(objs[i], params[i][0], params[i][1], fn, d, hist=h, pos=pos, shared=int(variant == 0), obj=i)
             if fn == "encrypt" and out:
                 encs[i].append(bytes(out))
+    # long data (firmware sized): encrypt / mac / decrypt of more than 256 and more than 4096 bytes, one chaining over the whole input
+    hist = 2000000
+    for n in ((300, 4097, 4128) if tier != "thorough" else (257, 300, 1000, 4096, 4097, 4112, 4128, 8200, 12289)):
+        for iv in (None, rb(r, 16)):
+            hist += 1
+            key, d = rb(r, 16), datum("random", n)
+            o = create(key, iv)
+            c = call(o, key, iv, "encrypt", d, hist=hist, pos=0, shared=1, obj=0)
+            call(o, key, iv, "mac", d, hist=hist, pos=1, shared=1, obj=0)
+            call(o, key, iv, "decrypt", c or bytes(16 * blocks(n)), hist=hist, pos=2, shared=1, obj=0)
+            call(create(key, iv), key, iv, "decrypt", rb(r, 16 * blocks(n)), hist=hist, pos=3, shared=0, obj=1)
     # pad
     for n in list(range(0, 66)) + [r.randint(66, 300) for _ in range(10)]:
         d = datum(r.choice(["random", "zero-tail"]) if n else "zeros", n)
